@@ -71,6 +71,11 @@ pub struct SrvCase {
     /// chosen, so that the others get whole requests done inside its windows between two calls
     #[serde(default)]
     pub stall: Option<usize>,
+    /// client disconnects enabled (at most two per world): a request in flight is dropped while
+    /// its handler is suspended at a database call - before the call is executed, or after it was
+    /// executed but before the handler is resumed
+    #[serde(default)]
+    pub cancels: bool,
 }
 
 pub struct Service {
@@ -303,7 +308,10 @@ impl Service {
             clients.push(script);
         }
         let stall = if rng.chance(1, 3) { Some(rng.below(nclients as u64) as usize) } else { None };
-        SrvCase { clients, faults, jumps, small_names, restarts: rng.chance(1, 5), stall }
+        let restarts = rng.chance(1, 5);
+        // drawn last
+        let cancels = rng.chance(1, 5);
+        SrvCase { clients, faults, jumps, small_names, restarts, stall, cancels }
     }
 
     /// More than ten statements (string-encoded positions "10", "11" sort before "2"): only
@@ -386,7 +394,9 @@ impl Service {
             let name = format!("c{c}{}", ["a", "b"][rng.below(2) as usize]);
             clients[c].insert(at, Rq::Update { name, pw: format!("pw{c}x{}", rng.below(2)) });
         }
-        SrvCase { clients, faults, jumps, small_names: false, restarts, stall }
+        // drawn last
+        let cancels = rng.chance(1, 6);
+        SrvCase { clients, faults, jumps, small_names: false, restarts, stall, cancels }
     }
 }
 
@@ -409,6 +419,9 @@ pub struct ClientSt {
     /// credentials of the last acknowledged login, to log in again after a restart
     pub creds: Option<(String, String)>,
     pub relogin_pending: bool,
+    /// a request of this client that changes or deletes its account was dropped half way
+    /// (client disconnect): what account it holds is no longer known to it
+    pub account_change_cancelled: bool,
     /// the request in flight (scripted, or the synthetic re-login)
     pub current: Option<Rq>,
 }
@@ -461,6 +474,7 @@ pub struct Run<'a> {
     pub o16: oracle16::State,
     /// schedule as (actor, action) records, for the solo re-execution (O5)
     pub had_restart: bool,
+    pub had_cancel: bool,
     pub actions: Vec<crate::solo::ActRec>,
     /// per client: (request ordinal, status, canonical body) of every scripted request
     pub obs: Vec<crate::solo::Obs>,
@@ -1103,6 +1117,8 @@ enum Act {
     Release(u64),
     Jump,
     Restart,
+    /// the client drops its request in flight (disconnect)
+    Cancel(usize),
 }
 
 async fn run_world(svc_cfg: &Service, case: &SrvCase, dec: Decisions, seed_for_key: u64) -> RunResult {
@@ -1149,6 +1165,7 @@ async fn run_world(svc_cfg: &Service, case: &SrvCase, dec: Decisions, seed_for_k
         solves_acked: Vec::new(),
         o16: oracle16::State::default(),
         had_restart: false,
+        had_cancel: false,
         actions: Vec::new(),
         obs: (0..n).map(|_| Vec::new()).collect(),
     };
@@ -1164,6 +1181,7 @@ async fn run_world(svc_cfg: &Service, case: &SrvCase, dec: Decisions, seed_for_k
     }
     let mut steps = 0u64;
     let mut restarts_done = 0u32;
+    let mut cancels_done = 0u32;
     let trace = std::env::var("SRVSIM_TRACE").is_ok();
     let mut last_gate_client: Option<usize> = None;
     let mut calls_done: BTreeMap<String, u32> = BTreeMap::new();
@@ -1209,6 +1227,14 @@ async fn run_world(svc_cfg: &Service, case: &SrvCase, dec: Decisions, seed_for_k
         }
         if case.restarts && restarts_done < 2 && steps > 3 && !acts.is_empty() {
             acts.push((Act::Restart, 1));
+        }
+        if case.cancels && cancels_done < 2 {
+            for c in 0..n {
+                let parked = gates.iter().any(|g| g.tag.as_deref().map(|t| tag_client(t) == Some(c) && !t.contains("final")).unwrap_or(false));
+                if run.cl[c].busy && parked && run.w.inflight.iter().any(|f| f.client == c) {
+                    acts.push((Act::Cancel(c), 1));
+                }
+            }
         }
         if acts.is_empty() {
             break;
@@ -1336,6 +1362,43 @@ async fn run_world(svc_cfg: &Service, case: &SrvCase, dec: Decisions, seed_for_k
                 run.login_found.clear();
                 run.had_restart = true;
             }
+            Act::Cancel(c) => {
+                cancels_done += 1;
+                run.had_cancel = true;
+                let g = gates.iter().find(|g| g.tag.as_deref().map(|t| tag_client(t) == Some(c) && !t.contains("final")).unwrap_or(false)).unwrap().clone();
+                let tag = g.tag.clone().unwrap_or_default();
+                let after = dec.borrow_mut().choose("cancel", 2) == 1;
+                run.log.str("cancel").u64(c as u64).u64(after as u64);
+                run.stats.inc(if after { "fault_client_disconnect_after_call_executed_fired" } else { "fault_client_disconnect_before_call_executed_fired" });
+                run.stats.inc(&format!("disconnect_at_{}_{}", g.op, g.coll));
+                if calls_done.get(&tag).copied().unwrap_or(0) >= 1 {
+                    run.stats.inc("probe_disconnect_between_two_calls_of_a_handler");
+                }
+                let held_before = run.cl[c].acct.clone().filter(|h| run.windows.iter().any(|(wc, old, _)| *wc == c && old == h));
+                if after {
+                    // the call is executed; its caller is never resumed
+                    *calls_done.entry(tag.clone()).or_default() += 1;
+                    run.w.release_gate(g.id, Outcome::CancelAfter, &tag).await;
+                }
+                run.w.drop_request(c).await;
+                run.process_events();
+                let rq = run.cl[c].current.take();
+                run.cl[c].busy = false;
+                run.cl[c].exact = false;
+                run.faults_hit_client.insert(c);
+                if matches!(rq, Some(Rq::Update { .. }) | Some(Rq::DeleteAccount)) {
+                    run.cl[c].account_change_cancelled = true;
+                    run.stats.inc("probe_account_change_dropped_half_way");
+                    // a rename whose first call was executed: the cookie the client keeps names
+                    // an account that no longer exists under that name
+                    if let Some(held) = run.cl[c].acct.clone() {
+                        if (held_before.is_some() || run.windows.iter().any(|(wc, old, _)| *wc == c && *old == held)) && !run.orphan_sessions.contains(&(c, held.clone())) {
+                            run.orphan_sessions.push((c, held));
+                            run.stats.inc("probe_session_outlives_account_after_disconnect");
+                        }
+                    }
+                }
+            }
             Act::Jump => {
                 run.actions.push(crate::solo::ActRec { client: usize::MAX, kind: crate::solo::ActKind::Jump });
                 run.log.str("jump");
@@ -1373,7 +1436,7 @@ async fn run_world(svc_cfg: &Service, case: &SrvCase, dec: Decisions, seed_for_k
     run.w.teardown().await;
     names::sim_install(None);
     // O5: every client again, alone, under the projection of the same schedule
-    if svc_cfg.name == "isolation" && !case.small_names && !run.had_restart && run.violation.is_none() && run.w.harness_error.is_none() && run.w.hung_task.is_none() && seed_for_key % 2 == 0 {
+    if svc_cfg.name == "isolation" && !case.small_names && !run.had_restart && !run.had_cancel && run.violation.is_none() && run.w.harness_error.is_none() && run.w.hung_task.is_none() && seed_for_key % 2 == 0 {
         for c in 0..n {
             if case.clients[c].is_empty() {
                 continue;
@@ -1502,7 +1565,7 @@ async fn final_phase(run: &mut Run<'_>) {
                             run.viol(v);
                         }
                         if judge {
-                            if let Some(v) = run.o16.final_liveness(cc, &acct, &pname, &j, &run.solves_acked, &tasks, run.case.faults) {
+                            if let Some(v) = run.o16.final_liveness(cc, &acct, &pname, &j, &run.solves_acked, &tasks, run.case.faults || run.cl[cc].account_change_cancelled) {
                                 run.viol(v);
                             }
                         }
@@ -1596,6 +1659,11 @@ impl Service {
         if c.stall.is_some() {
             let mut d = c.clone();
             d.stall = None;
+            out.push(d);
+        }
+        if c.cancels {
+            let mut d = c.clone();
+            d.cancels = false;
             out.push(d);
         }
         for (flag, _) in [("faults", 0), ("jumps", 1), ("small", 2)] {
